@@ -333,7 +333,11 @@ def run(ctx: core.Ctx, only=None) -> core.Result:
     if only is not None:
         items = [o.get('input', o) for o in only]
     else:
-        items = core.corpus_cases('C12') + [{'spec': gen_spec(ctx.rng)} for _ in range(ctx.scale(3, 25))] + \
+        gens = [gen_spec(ctx.rng) for _ in range(ctx.scale(3, 25))]
+        gens[0].update(nan_c=True, ncomp=max(3, gens[0]['ncomp']))      # every run saves imputed (NaN-replacing) training values
+        if len(gens) > 1:
+            gens[1].update(nan_c=False)
+        items = core.corpus_cases('C12') + [{'spec': g} for g in gens] + \
             [{'field_system_seed': ctx.rng.randrange(10 ** 6)} for _ in range(ctx.scale(1, 5))]
     for it in items:
         with core.guarded(res, 'scenario-raised', it):
